@@ -381,7 +381,16 @@ class Interp:
                 return FuncVal([(r, False)], None, U(e))
             return Opaque(U(e))
         if isinstance(e, ast.Tuple) or isinstance(e, ast.List):
-            elts = [self.eval(x, st, func, selfobj) for x in e.elts]
+            elts = []
+            for x in e.elts:
+                if isinstance(x, ast.Starred):
+                    v = self.eval(x.value, st, func, selfobj)
+                    if isinstance(v, Tup):
+                        elts.extend(v.elts)       # (a, *t) with t a known tuple
+                    else:
+                        return Opaque(U(e))       # unknown arity: nothing positional may be concluded
+                else:
+                    elts.append(self.eval(x, st, func, selfobj))
             multi = [i for i, x in enumerate(elts) if isinstance(x, MultiVal)]
             if multi and len(multi) <= 2:
                 # a tuple with a case-split component is a case-split tuple
@@ -1018,6 +1027,60 @@ class Interp:
             return False
         return True
 
+    def _loop_carried(self, loop, st, func, selfobj):
+        """{name: increment per iteration (Poly) or None} for the local names the loop body both reads and re-assigns
+        from their own value."""
+        body = loop.body
+        aug = {}
+        for n in ast.walk(ast.Module(body=list(body), type_ignores=[])):
+            if isinstance(n, ast.AugAssign) and isinstance(n.target, ast.Name):
+                aug.setdefault(n.target.id, []).append(n)
+            elif isinstance(n, ast.Assign):
+                for t in n.targets:
+                    for x in ast.walk(t):
+                        if isinstance(x, ast.Name) and any(isinstance(y, ast.Name) and y.id == x.id for y in ast.walk(n.value)):
+                            aug.setdefault(x.id, []).append(n)       # v = v + c  style
+        out = {}
+        for nm, sites in aug.items():
+            if nm not in st.env or not isinstance(st.env[nm], Poly):
+                continue      # numeric locals only (byte strings grown with += keep their own model)
+            # other plain assignments to the name inside the body (a reset) : unknown
+            plain = [n for n in ast.walk(ast.Module(body=list(body), type_ignores=[])) if isinstance(n, ast.Assign) and
+                     any(isinstance(x, ast.Name) and x.id == nm and isinstance(x.ctx, ast.Store) for t in n.targets for x in ast.walk(t))
+                     and n not in sites]
+            inc = None if plain else self._increment_of(body, nm, st, func, selfobj)
+            out[nm] = inc
+        return out
+
+    def _increment_of(self, body, nm, st, func, selfobj):
+        """total amount added to ``nm`` by one execution of the statement list, or None when not a fixed amount"""
+        total = C(0)
+        for stmt in body:
+            touches = any((isinstance(x, ast.Name) and x.id == nm and isinstance(x.ctx, ast.Store)) for x in ast.walk(stmt))
+            if not touches:
+                continue
+            if isinstance(stmt, ast.AugAssign) and isinstance(stmt.target, ast.Name) and stmt.target.id == nm and \
+                    isinstance(stmt.op, (ast.Add, ast.Sub)):
+                if any(isinstance(x, ast.Name) and x.id == nm for x in ast.walk(stmt.value)):
+                    return None
+                c = self.eval(stmt.value, st, func, selfobj)
+                if not isinstance(c, Poly):
+                    return None
+                total = total + c if isinstance(stmt.op, ast.Add) else total - c
+            elif isinstance(stmt, ast.For) and not stmt.orelse:
+                rng = self._range_of(stmt.iter, st, func, selfobj)
+                if rng is None or rng[1] is None:
+                    return None
+                inner = self._increment_of(stmt.body, nm, st, func, selfobj)
+                if inner is None:
+                    return None
+                # the inner increment must not depend on the inner loop variable (it was evaluated without it: a name
+                # bound by the inner loop would have been opaque / unknown)
+                total = total + rng[1] * inner
+            else:
+                return None
+        return total
+
     def for_loop(self, s, st, func, selfobj):
         T = self.T
         rng = self._range_of(s.iter, st, func, selfobj)
@@ -1041,11 +1104,28 @@ class Interp:
             loop.lo = None
             loop.iter = itv
             self.assign(s.target, Opaque('item of ' + U(s.iter)), st, func, selfobj)
+        # loop-carried locals: a name advanced by `v += c` (c loop-invariant, unconditional, possibly inside nested loops of
+        # constant trip count) has the closed form  v = v_entry + k * (increment per iteration)  at the top of iteration
+        # k; any other name that the body assigns and also reads before assigning it is not a function of k we know:
+        # it becomes opaque for the body (so nothing is concluded from its entry value).
+        carried_after = {}
+        for nm, inc in self._loop_carried(s, st, func, selfobj).items():
+            entry = st.env.get(nm)
+            if inc is not None and isinstance(entry, Poly) and count is not None:
+                st.env[nm] = entry + k * inc
+                carried_after[nm] = entry + count * inc
+            else:
+                st.env[nm] = Opaque('loop-carried ' + nm)
+                carried_after[nm] = Opaque('loop-carried ' + nm)
         self.loops.append(loop)
         try:
             outs = self.run_body(s.body, [st], func, selfobj)
         finally:
             self.loops.pop()
+        for o in outs:
+            if o.kind == 'fall':
+                for nm, v in carried_after.items():
+                    o.state.env[nm] = v
         res = []
         falls = [o for o in outs if o.kind == 'fall']
         for o in outs:
